@@ -59,6 +59,11 @@ type ExtVocab struct {
 	// AltPrefixes spells every namespace prefix differently from the shipped vocabulary files ("activity:"
 	// for "as:", "r:" for "rdf:", "x:" for "xsd:", ...): prefixes are local to a file.
 	AltPrefixes bool
+	// URI / Name default to extURI / "VerifExt". Below, if set, is a FIRST extension this one is stacked
+	// on (generated as a file of its own and passed to astool before this one); its types are written
+	// "below:<Name>".
+	URI, Name string
+	Below     *ExtVocab
 	Types []ExtType
 	Props []ExtProp
 }
@@ -111,7 +116,21 @@ func (v ExtVocab) JSON() []byte {
 		}
 		members = append(members, m)
 	}
-	doc := M{"@context": ctx, "id": extURI, "type": "owl:Ontology", "name": "VerifExt", "members": members}
+	uri, vname := extURI, "VerifExt"
+	if v.URI != "" {
+		uri = v.URI
+	}
+	if v.Name != "" {
+		vname = v.Name
+	}
+	if v.Below != nil {
+		bu := extURI
+		if v.Below.URI != "" {
+			bu = v.Below.URI
+		}
+		ctx[0].(M)["below"] = bu
+	}
+	doc := M{"@context": ctx, "id": uri, "type": "owl:Ontology", "name": vname, "members": members}
 	b, _ := json.MarshalIndent(doc, "", " ")
 	if v.AltPrefixes {
 		// rename every prefix consistently (declarations and uses); the URIs stay
@@ -283,6 +302,30 @@ func AltPrefixVocab() ExtVocab {
 		{Name: "vp2", Domain: []string{"as:Object"}, Range: []string{"rdf:langString", "xsd:string"}, Functional: true},
 		{Name: "vp3", Domain: []string{"Beta", "as:Link"}, Range: []string{"xsd:dateTime", "as:Object", "xsd:anyURI"}, Without: []string{"Beta"}},
 		{Name: "vp4", Domain: []string{"Alpha"}, Range: []string{"xsd:nonNegativeInteger", "xsd:duration", "xsd:dateTime"}, Functional: true}, // (no xsd:boolean next to a numeric kind: 0 and 1 are in both lexical spaces)
+	}}
+}
+
+// StackedVocabs: two extension vocabularies in one run, the second stacked on the first: the first
+// has a type with a disjointWith of its own; the second adds subtypes on both sides of that
+// disjointness and below the first one's types, and properties over them.
+func StackedVocabs() ExtVocab {
+	below := &ExtVocab{Label: "stacked-below", URI: "https://verif.example/base-ns", Name: "VerifBase", Types: []ExtType{
+		{"Xnote", []string{"as:Object"}, []string{"as:Activity"}, false},
+		{"Xplace", []string{"as:Place"}, nil, false},
+		{"Xlink", []string{"as:Link"}, nil, false},
+	}, Props: []ExtProp{
+		{Name: "xfloor", Domain: []string{"Xplace"}, Range: []string{"xsd:nonNegativeInteger"}, Functional: true},
+		{Name: "xremark", Domain: []string{"Xnote", "as:Link"}, Range: []string{"rdf:langString", "xsd:string"}},
+	}}
+	return ExtVocab{Label: "two-stacked-extensions", Below: below, Types: []ExtType{
+		{"Ylink", []string{"as:Link"}, nil, false},
+		{"Ynote", []string{"below:Xnote"}, nil, false},
+		{"Yroom", []string{"below:Xplace"}, []string{"below:Xnote"}, false},
+		{"Ydeed", []string{"as:Activity"}, nil, false},
+		{"Ysublink", []string{"below:Xlink", "Ylink"}, nil, false},
+	}, Props: []ExtProp{
+		{Name: "yseat", Domain: []string{"Yroom", "below:Xnote"}, Range: []string{"xsd:string", "below:Xplace"}, Functional: true},
+		{Name: "ymark", Domain: []string{"as:Object"}, Range: []string{"Ynote", "below:Xnote", "xsd:anyURI"}, Without: []string{"Yroom"}},
 	}}
 }
 
